@@ -19,7 +19,7 @@ static int ninv; static char fresh0[256]; static bool have_fresh; static bool ho
 static char descr[600];
 static int TGT;      /* index of the command under test: 0, or 1 when a disabled command / a command of a disabled group comes first in the table */
 /* overflow cells: a READ of two variables on a capacity around the point where the separator lands on the last byte of the buffer; with a small event in flight next door */
-static int lead_disabled; static bool big_ubuf;
+static int lead_disabled; static bool big_ubuf, qmark, tgt_disabled;
 static bool ovf, conc_event; static int ovf_digits, ovf_delta, conc_units; static long conc_step; static bool conc_accepted;
 
 /* observed units */
@@ -62,7 +62,7 @@ static cat_return_state policy(struct hcall *h)
                 if (mod) *h->psize = (size_t)snprintf((char *)h->data, h->max, "~%d", k);
                 if (rewrite == 3 && (k % 3) != 1 && h->max > 0) { h->data[0] = 0; *h->psize = 0; }      /* the handler empties the text: an empty line is what the buffer holds, and it is emitted like any other */
         } else if (h->kind == K_WRITE) {
-                const char *exp = nvars == 2 ? "7,8" : "7";
+                const char *exp = qmark ? "?" : nvars == 2 ? "7,8" : "7";
                 if (h->size != strlen(exp) || memcmp(h->data, exp, h->size) != 0 || h->args_num != (size_t)nvars)
                         viol("C10", "stale-buffer", "write handler invocation %d saw args \"%.*s\" args_num %zu", k, (int)h->size, (const char *)h->data, h->args_num);
         }
@@ -103,6 +103,8 @@ static void run_cell(void)
         c->name = xstr("+C");
         if (kind == K_RUN) c->run = h_run; else if (kind == K_READ) c->read = h_read; else if (kind == K_WRITE) c->write = h_write; else c->test = h_test;
         if (with_desc) c->description = xstr("about C");
+        qmark = qmark && kind == K_WRITE && nvars == 0;
+        if (tgt_disabled && fsm == FSM_U) { c->disable = true; CNT("event_cells_on_a_disabled_command"); }      /* the disable flag hides a command from the input stream; an accepted event of it is processed like any other */
         struct cat_variable *v = w_vars(c, (size_t)nvars);
         for (int j = 0; j < nvars; j++) { v[j].type = CAT_VAR_UINT_DEC; v[j].name = j ? "Y" : "X"; uint8_t *d = w_vdata(&v[j], 1); *d = (uint8_t)(7 + j); v[j].read = hv_read; v[j].write = hv_write; }
         if (ovf) { uint32_t x = 1; for (int q = 1; q < ovf_digits; q++) x *= 10; uint8_t *d = w_vdata(&v[0], 4); memcpy(d, &x, 4); }      /* "+C=<ovf_digits digits>,8" */
@@ -172,7 +174,7 @@ static void run_cell(void)
                 if (s != CAT_STATUS_OK) { inconclusive("trigger refused on an empty queue"); return; }
         } else {
                 static const char *l[4] = { "AT+C", "AT+C?", "AT+C=", "AT+C=?" };
-                in_puts(l[kind]); if (kind == K_WRITE) in_puts(nvars == 2 ? "7,8" : "7"); in_puts(crlf ? "\r\n" : "\n");
+                in_puts(l[kind]); if (kind == K_WRITE) in_puts(qmark ? "?" : nvars == 2 ? "7,8" : "7"); in_puts(crlf ? "\r\n" : "\n");      /* "AT+C=?" on a command with a write handler only (with or without a description) is a WRITE of "?" */
         }
         size_t o = 0; o += (size_t)snprintf(descr + o, sizeof descr - o, "cell: %s handler on the %s FSM, %d variable(s), rewrite mode %d, desc %d; var read fails at call %d, var write at call %d;%s%s code script:",
                                             kn[kind], fsm ? "event" : "command", nvars, rewrite, with_desc, vr_fail, vw_fail, ovf ? " capacity around the separator-on-last-byte point;" : "", conc_event ? " a READ event of +O is triggered meanwhile;" : "");
@@ -236,7 +238,7 @@ struct case_budget chk_budget(const char *tier)
 void chk_run_case(uint64_t seed, long c, bool is_sweep)
 {
         (void)seed;
-        vr_fail = vw_fail = -1; hold_status = 0; descr[0] = 0; ovf = false; conc_event = false; lead_disabled = 0; big_ubuf = false;
+        vr_fail = vw_fail = -1; hold_status = 0; descr[0] = 0; ovf = false; conc_event = false; lead_disabled = 0; big_ubuf = false; qmark = false; tgt_disabled = false;
         if (is_sweep && c >= N_SWEEP_A) {      /* overflow cells: digits 1..10 x delta -2..+3 x FSM x code x bystander */
                 long k = c - N_SWEEP_A;
                 ovf = true; ovf_digits = 1 + (int)(k % 10); k /= 10; ovf_delta = (int)(k % 6) - 2; k /= 6; fsm = (int)(k % 2); k /= 2; conc_event = (k % 2) && fsm == FSM_A; k /= 2;
@@ -249,7 +251,7 @@ void chk_run_case(uint64_t seed, long c, bool is_sweep)
                 long cell = c / 631; decode_seq(c % 631);
                 int kf = (int)(cell % 6); kind = CELL_KIND[kf]; fsm = CELL_FSM[kf]; cell /= 6;
                 nvars = (int)(cell % 2); rewrite = (int)(cell / 2);
-                with_desc = (c & 1); crlf = (c & 2) != 0; hold_status = (int)((c >> 2) & 1); tight = ((c >> 3) & 3) == 0; lead_disabled = (int)((c >> 5) % 3); big_ubuf = ((c >> 4) & 1) != 0;
+                with_desc = (c & 1); crlf = (c & 2) != 0; hold_status = (int)((c >> 2) & 1); tight = ((c >> 3) & 3) == 0; lead_disabled = (int)((c >> 5) % 3); big_ubuf = ((c >> 4) & 1) != 0; qmark = ((c >> 1) & 3) == 1; tgt_disabled = ((c >> 2) & 3) == 2;
                 sch_eager(&RS); sch_eager(&WS);
         } else {
                 int kf = (int)rn(6); kind = CELL_KIND[kf]; fsm = CELL_FSM[kf];
@@ -262,7 +264,7 @@ void chk_run_case(uint64_t seed, long c, bool is_sweep)
                 if (chance(50)) { sch_bern(&RS, 30 + rn(70), rnd()); sch_bern(&WS, 30 + rn(70), rnd()); }
                 if (fsm == FSM_A && chance(30)) conc_event = true;
                 if (chance(25)) lead_disabled = 1 + (int)rn(2);
-                big_ubuf = chance(50);
+                big_ubuf = chance(50); qmark = chance(30); tgt_disabled = chance(25);
                 if (chance(12)) { ovf = true; kind = K_READ; nvars = 2; ovf_digits = 1 + (int)rn(10); ovf_delta = (int)rn(6) - 2; tight = false; }
         }
         if (fsm == FSM_U) for (int i = 0; i < slen; i++) if (script[i] == CAT_RETURN_STATE_HOLD) script[i] = CAT_RETURN_STATE_OK;   /* HOLD from an event handler is an unspecified cell (DESIGN 3.2) */
